@@ -43,58 +43,61 @@ def wrap(tpl, ctx, prelude, body):
 
 def run_resilient(binary, engine, vectors, shards=8, timeout=900):
     """Like vlib.run_harness, but a harness process that dies (panic in a goroutine the interpreter
-    started) is a RESULT for the vector it was running, and the remaining vectors are resumed."""
+    started) is a RESULT for the vector it was running, and the remaining vectors of that shard are
+    resumed in a new process. Shards run independently (one thread each)."""
+    from concurrent.futures import ThreadPoolExecutor
     if not vectors:
         return []
     shards = max(1, min(shards, len(vectors)))
     work = vlib.scratch("c28h-")
     results = [None] * len(vectors)
-    try:
-        pending = []
-        for k in range(shards):
-            pending.append(list(range(k, len(vectors), shards)))
+
+    def run_shard(k):
+        idx = list(range(k, len(vectors), shards))
         rnd = 0
-        while any(pending):
+        while idx:
             rnd += 1
-            procs = []
-            for k, idx in enumerate(pending):
-                if not idx:
-                    continue
-                inp = os.path.join(work, "in%d_%d.ndjson" % (rnd, k))
-                outp = os.path.join(work, "out%d_%d.ndjson" % (rnd, k))
-                with open(inp, "w") as f:
-                    for i in idx:
-                        f.write(json.dumps(vectors[i]) + "\n")
-                env = dict(os.environ)
-                env.update({"VERIF_SCRATCH": work, "GOGC": "400", "GOMAXPROCS": "4", "GOTRACEBACK": "single"})
-                fo, fe = open(outp, "w"), open(outp + ".err", "w")
-                p = subprocess.Popen(["timeout", str(timeout), binary, engine, inp], stdout=fo, stderr=fe, env=env, cwd=work)
-                procs.append((k, idx, p, outp, fo, fe))
-            newpending = [[] for _ in pending]
-            for k, idx, p, outp, fo, fe in procs:
-                rc = p.wait()
-                fo.close(); fe.close()
-                rs = []
-                with open(outp) as f:
-                    for l in f:
-                        l = l.strip()
-                        if l:
-                            try:
-                                rs.append(json.loads(l))
-                            except ValueError:
-                                break
-                for i, r in zip(idx, rs):
-                    results[i] = r
-                if len(rs) < len(idx):
-                    err = open(outp + ".err").read()
-                    if rc == 124:
-                        raise vlib.Inconclusive("harness %s timed out" % engine)
-                    if "panic:" not in err and "fatal error:" not in err:
-                        raise vlib.Inconclusive("harness %s died rc=%s without a Go panic:\n%s" % (engine, rc, err[-2000:]))
-                    culprit = idx[len(rs)]
-                    results[culprit] = {"crash": True, "panic": crash_message(err), "stack": crash_stack(err), "status": -5}
-                    newpending[k] = idx[len(rs) + 1:]
-            pending = newpending
+            inp = os.path.join(work, "in%d_%d.ndjson" % (k, rnd))
+            outp = os.path.join(work, "out%d_%d.ndjson" % (k, rnd))
+            with open(inp, "w") as f:
+                for i in idx:
+                    f.write(json.dumps(vectors[i]) + "\n")
+            env = dict(os.environ)
+            # results are read from the unbuffered side file (stdout is lost when the process dies)
+            side = outp + ".side"
+            env.update({"VERIF_SCRATCH": work, "GOGC": "400", "GOMAXPROCS": "4", "GOTRACEBACK": "single", "VERIF_SIDE": side})
+            with open(outp, "w") as fo, open(outp + ".err", "w") as fe:
+                rc = subprocess.call(["timeout", str(timeout), binary, engine, inp], stdout=fo, stderr=fe, env=env, cwd=work)
+            rs = []
+            if not os.path.exists(side):
+                open(side, "w").close()
+            with open(side) as f:
+                for l in f:
+                    l = l.strip()
+                    if l:
+                        try:
+                            rs.append(json.loads(l))
+                        except ValueError:
+                            break
+            for i, r in zip(idx, rs):
+                results[i] = r
+            os.unlink(inp)
+            os.unlink(outp)
+            os.unlink(side)
+            if len(rs) >= len(idx):
+                return
+            err = open(outp + ".err").read()
+            if rc == 124:
+                raise vlib.Inconclusive("harness %s timed out" % engine)
+            if "panic:" not in err and "fatal error:" not in err:
+                raise vlib.Inconclusive("harness %s died rc=%s without a Go panic:\n%s" % (engine, rc, err[-2000:]))
+            culprit = idx[len(rs)]
+            results[culprit] = {"crash": True, "panic": crash_message(err), "stack": crash_stack(err), "status": -5}
+            idx = idx[len(rs) + 1:]
+
+    try:
+        with ThreadPoolExecutor(max_workers=shards) as ex:
+            list(ex.map(run_shard, range(shards)))
         return results
     finally:
         shutil.rmtree(work, ignore_errors=True)
